@@ -41,6 +41,23 @@ Proof.
       * apply IH.
 Qed.
 
+(* what a forwarded message does to the two counters, for EVERY configuration: outside a statistics report the
+   MESSAGE_TRAFFIC counter of its type goes up by exactly one whether or not TIMING_MESSAGE is enabled (option -T only
+   stops the per-type TIMING counts), every other type keeps its count, and nothing else in the state changes *)
+Theorem C18_counted_with_or_without_timing : forall cfg t s, sending_traffic s = false ->
+  exists s', count_msg cfg t s = Ok tt s' /\
+    (forall k, clookup k (traffic s') = if k =? t then clookup k (traffic s) + 1 else clookup k (traffic s)) /\
+    (forall k, clookup k (counts s') =
+               if timing_on cfg then (if k =? t then clookup k (counts s) + 1 else clookup k (counts s))
+               else clookup k (counts s)) /\
+    mods s' = mods s /\ subs s' = subs s /\ loggers s' = loggers s /\ out s' = out s.
+Proof.
+  intros cfg t s H. unfold count_msg, bind, get. rewrite H. cbn [negb]. unfold modify.
+  eexists. split; [reflexivity|]. cbn [traffic counts with_counts mods subs loggers out].
+  split; [intros k; apply C18_counter_incr|]. split; [|repeat split].
+  intros k. destruct (timing_on cfg); [apply C18_counter_incr|reflexivity].
+Qed.
+
 (* non-vacuity: 130 distinct types give three sub-messages (64 + 64 + 2) reporting all 130 *)
 Example C18_ex_130 :
   let items := map (fun i => (200 + Z.of_nat i, 1 + Z.of_nat i)) (seq 0 130) in
